@@ -63,7 +63,8 @@ def setUpOk (p : Program) : Bool := (termExcs p.setUp.term).isEmpty
 /-- input well-formedness assumed by the clauses: distinct stage ids; user handlers only for classes
 deriving from `Exception` (KeyboardInterrupt & co. are not claimed by configuration); the case's own skip
 reporter (which reads the reason off the exception) is only reused for skip classes; the initial
-attribute store of the scratch object is a dict (distinct attribute names) -/
+attribute store of the scratch object is a dict (distinct attribute names); no user-supplied detail is named
+`reason` (the framework's own skip / expected-failure reason is attached by a plain `addDetail('reason')`) -/
 def idsNodup : List Nat → Bool
   | [] => true
   | x :: xs => !xs.contains x && idsNodup xs
@@ -83,11 +84,24 @@ def dictsOf (st : Stage) : List (List (DName × UC)) :=
    | .fixtureFail ds _ _ => [ds]
    | _ => [])
 
+/-- names under which a stage attaches details by plain `addDetail` -/
+def plainNames : List Act → List DName
+  | [] => []
+  | .addDetail n _ :: as => n :: plainNames as
+  | .cleanup _ :: as => plainNames as
+  | .expect _ _ :: as => plainNames as
+  | .patch _ _ :: as => plainNames as
+  | .useFixture _ _ _ :: as => plainNames as
+
+/-- the detail names user code of a stage supplies (plain, in mismatches, in fixtures) -/
+def userNames (st : Stage) : List DName := plainNames st.acts ++ (dictsOf st).flatMap fun ds => ds.map (·.1)
+
 def wf (p : Program) : Bool :=
   idsNodup ((allStages p).map Stage.id) && p.userHandlers.all (fun h => isSub h.1 .exc) &&
   p.userHandlers.all (fun h => h.2 != .std .skip || isSub h.1 .skip) &&
   (allStages p).all (fun st => (dictsOf st).all fun ds => namesNodup (ds.map (·.1))) &&
-  idsNodup (p.attrs0.map (·.1))
+  idsNodup (p.attrs0.map (·.1)) &&
+  (allStages p).all (fun st => (userNames st).all fun n => n != nmReason)
 
 /-! ### reading a trace -/
 def stageIds (t : Trace) : List Nat := t.events.filterMap fun | .stage i => some i | _ => none
